@@ -67,10 +67,12 @@ class Stack(Sequence[T]):
         self.items.clear()
 
         if self.lengths:
-            item_count, _ = self.lengths[-1]
-            # Mark all items as popped for the latest snapshot
+            item_count, remained_count = self.lengths[-1]
+            # Mark all items as popped for the latest snapshot. Items above the
+            # snapshot's low-water mark were pushed (or already recorded) after
+            # the snapshot was taken, so only those below it need to be kept.
             self.lengths[-1] = (item_count, 0)
-            self.popped.extend(reversed(removed))
+            self.popped.extend(reversed(removed[:remained_count]))
         else:
             # No snapshots to restore from; reset everything
             self.popped.clear()
@@ -99,7 +101,17 @@ class Stack(Sequence[T]):
         """Drop the last snapshot."""
         if self.lengths:
             item_count, remained_count = self.lengths.pop()
-            del self.popped[item_count - remained_count :]
+            # Items popped from below the dropped snapshot's level.
+            start = len(self.popped) - (item_count - remained_count)
+            dropped = self.popped[start:]
+            del self.popped[start:]
+            if self.lengths:
+                # Items popped from below the enclosing snapshot's low-water mark
+                # while the dropped snapshot was active must stay restorable.
+                outer_count, outer_remained = self.lengths[-1]
+                if remained_count < outer_remained:
+                    self.popped.extend(dropped[remained_count - outer_remained :])
+                    self.lengths[-1] = (outer_count, remained_count)
 
     def restore(self) -> None:
         """Rewind the stack to the most recent snapshot.
